@@ -506,9 +506,16 @@ class InputFileGenerator(object):
         # Sometimes an array is too large for the example in the template
         # This is resolved by adding more fields at the end
         if sub._counter < len(value):
+            # keep the line terminator, so that the line does not merge with the next one
+            eol = '\n' if newline.endswith('\n') else ''
+            newline = newline.rstrip()
             for val in value[sub._counter:]:
-                newline = newline.rstrip() + sep + str(val)
-            self._data[j] = newline
+                if isinstance(val, float):
+                    # same format as the values that were substituted into the template
+                    newline = newline + sep + _getformat(val) % val
+                else:
+                    newline = newline + sep + str(val)
+            self._data[j] = newline + eol
 
         # Sometimes an array is too small for the template
         # This is resolved by removing fields
